@@ -440,6 +440,8 @@ val bytes_bits : n list -> bits
 
 val write_bytes : n list -> bs -> bs * unit res
 
+val write_bitstring : bs -> bs -> bs * unit res
+
 val write_unary : nat -> bs -> bs * unit res
 
 val get_bit : nat -> bs -> bool
@@ -492,6 +494,38 @@ val strip_tag : n -> bits option
 
 val concat_nibbles : n list -> bits
 
+val write_bits_g :
+  (bool -> bs -> bs * unit res) -> bits -> bs -> bs * unit res
+
+val write_bitstring_g :
+  (bool -> bs -> bs * unit res) -> bs -> bs -> bs * unit res
+
+val read_bits_bs_g : (bool -> bs -> bs * unit res) -> nat -> bs -> bs * bs res
+
+val read_remaining_bs_g : (bool -> bs -> bs * unit res) -> bs -> bs * bs
+
+val copy_bs : bs -> bs
+
+val grow : nat -> bs -> bs
+
+val append_g : (bool -> bs -> bs * unit res) -> bs -> bs -> bs * unit res
+
+val hex_of_buf : bs -> n list res
+
+val to_fift_bs_g : (bool -> bs -> bs * unit res) -> bs -> (n list * bool) res
+
+val top_upped_g : (bool -> bs -> bs * unit res) -> bs -> n list res
+
+val read_bits_bs : nat -> bs -> bs * bs res
+
+val read_remaining_bs : bs -> bs * bs
+
+val append_bs : bs -> bs -> bs * unit res
+
+val to_fift_bs : bs -> (n list * bool) res
+
+val top_upped : bs -> n list res
+
 val out_unit : unit res -> sx
 
 val out_of : ('a1 -> sx) -> 'a1 res -> sx
@@ -521,6 +555,18 @@ val run_from_fift : sx -> sx
 val run_to_fift : sx -> sx
 
 val run_minbits : sx -> sx
+
+val reg_get : bs list -> n -> bs
+
+val reg_set : bs list -> n -> bs -> bs list
+
+val to_fift_bs_sx : bs -> sx
+
+val dstep : bs list -> sx -> bs list * sx
+
+val run_dops : bs list -> sx list -> sx list
+
+val run_derived : sx -> sx
 
 val m32 : n
 
@@ -821,6 +867,8 @@ val read_unary0 : nat -> bits -> nat -> (nat * bits) option
 
 val load_label : nat -> bits -> (bits * bits) option
 
+val cell_special : cell -> bool
+
 val cell_bits : cell -> bits
 
 val cell_refs : cell -> cell list
@@ -837,6 +885,23 @@ val bits_eqb : bits -> bits -> bool
 
 val prove_key : (bytes -> bytes) -> cell -> bits -> nat -> cell res
 
+type op =
+| OpKey of bits * nat
+| OpWalk of nat list list
+| OpDrop of nat list list
+
+val run_op :
+  (bytes -> bytes) -> (nat list -> nat list -> bool) -> cell -> op -> cell
+  res option
+
+val prover_step :
+  (bytes -> bytes) -> (nat list -> nat list -> bool) -> cell -> op ->
+  cell * cell res option
+
+val prover_run :
+  (bytes -> bytes) -> (nat list -> nat list -> bool) -> cell -> op list ->
+  cell res option list
+
 val tree_at : nat -> node list -> nat -> cell option
 
 val index_of : node list -> nat -> nat list -> nat option
@@ -850,6 +915,12 @@ val path_of_sx : sx -> nat list
 val run_proof : sx -> sx
 
 val run_key : sx -> sx
+
+val op_of_sx : sx -> op option
+
+val sx_of_result : cell res option -> sx
+
+val run_multi : sx -> sx
 
 val bits_cmp : bits -> bits -> comparison
 
@@ -952,6 +1023,10 @@ val addr_key : (z * n list) -> bits
 val bytes_of_bits0 : nat -> bits -> n list
 
 val addr_unkey : bits -> z * n list
+
+val venc_any : cell0 -> bits * cell0 list
+
+val vdec_any : bits -> cell0 list -> cell0 option
 
 val venc_val : n -> bits * cell0 list
 
@@ -2036,7 +2111,7 @@ val trees_of : nat -> node list -> cell res list
 
 val eTlbMsg : n
 
-val cell_special : cell -> bool
+val cell_special0 : cell -> bool
 
 val cell_ty : cell -> n
 
@@ -3272,5 +3347,331 @@ val run_enclen : sx -> sx
 val run_sizeof : sx -> sx
 
 val run_camel : sx -> sx
+
+val boc_size_limit : z
+
+val print_step : (nat -> z -> n * z) -> (n * z) -> nat -> n * z
+
+val print_at : nat -> node list -> nat -> z -> n * z
+
+val to_string_lines : node list -> nat -> n
+
+val run_lines : sx -> sx
+
+val str0 : n list -> string
+
+val tlty_of : sx -> ty0 option
+
+val field_of : sx -> field option
+
+val all_of : (sx -> 'a1 option) -> sx list -> 'a1 list option
+
+val decl_of : sx -> decl option
+
+val decls_of : sx -> decl list option
+
+type target0 =
+| TType0 of ty0
+| TArgs0 of decl
+
+val target_of : decl list -> sx -> target0 option
+
+val run_tl1 : sx -> sx
+
+val run_tlreq : sx -> sx
+
+val schema_of : sx -> schema option
+
+val run_tlb1 : sx -> sx
+
+val eUnmodelled : n
+
+val eWallet : n
+
+val eBadSig : n
+
+val eTag : n
+
+type version =
+| V1R1
+| V1R2
+| V1R3
+| V2R1
+| V2R2
+| V3R1
+| V3R2
+| V3R2Lockup
+| V4R1
+| V4R2
+| V5Beta
+| V5R1
+| HLV1R1
+| HLV1R2
+| HLV2
+| HLV2R1
+| HLV2R2
+
+val ocell : bits -> cell list -> cell
+
+val cdata : cell -> bits
+
+val crefs : cell -> cell list
+
+val mk0 : bits -> cell list -> cell res
+
+val take1 : nat -> bits -> (bits * bits) res
+
+val u8 : n -> bits
+
+val u0 : n -> bits
+
+val u64 : n -> bits
+
+val two3 : z
+
+val unix32 : z -> n
+
+val bytes_to_bits0 : bytes -> bits
+
+val to_dict : cell -> cell0 option
+
+val of_dict : cell0 -> cell
+
+type rawmsg = { rm_msg : cell; rm_mode : n }
+
+val modes_bits : rawmsg list -> bits
+
+val payload_v1v4 : bits -> rawmsg list -> cell res
+
+val body_v3 : n -> z -> n -> rawmsg list -> cell res
+
+val body_v4 : n -> z -> n -> rawmsg list -> cell res
+
+val action_magic : n
+
+val actions_cell : rawmsg list -> cell res
+
+val op_signed_internal : n
+
+val op_signed_external : n
+
+val op_extension_action : n
+
+val v5beta_bits : n -> n -> z -> n -> z -> n -> bits
+
+val v5r1_bits : n -> n -> z -> n -> bits
+
+val hl_entries : nat -> rawmsg list -> (bits * cell0) list option
+
+val hl_query : z -> n -> n
+
+val body_hl : n -> z -> n -> rawmsg list -> cell res
+
+type wallet = { w_ver : version; w_pk : bits; w_wc : z; w_sub : n; w_net : 
+                n; w_wid : n }
+
+type options = { o_wc : z option; o_sub : n option; o_net : z option }
+
+val default_subwallet : z
+
+val mainnet_global_id : z
+
+val to_u32 : z -> n
+
+val opt_or : 'a1 option -> 'a1 -> 'a1
+
+val context_id : z -> n
+
+val new_wallet : bits -> version -> options -> wallet res
+
+val max_messages : version -> nat
+
+val fit0 : nat -> bits -> bits
+
+val sign_body :
+  (cell -> bytes res) -> ('a1 -> bytes -> bits) -> 'a1 -> cell -> cell res
+
+val sign_append :
+  (cell -> bytes res) -> ('a1 -> bytes -> bits) -> 'a1 -> bits -> cell list
+  -> cell res
+
+val unsigned_body : wallet -> rawmsg list -> n -> z -> n -> n -> cell res
+
+val sig_appended : version -> bool
+
+val create_body :
+  (cell -> bytes res) -> ('a1 -> bytes -> bits) -> wallet -> 'a1 -> rawmsg
+  list -> n -> z -> n -> n -> cell res
+
+val ext_bits : z -> bits -> bool -> bits
+
+val ext_msg : z -> bits -> cell option -> cell -> cell res
+
+val raw_send_msg :
+  (cell -> bytes res) -> ('a1 -> bytes -> bits) -> wallet -> 'a1 -> z -> bits
+  -> n -> z -> rawmsg list -> cell option -> n -> (bytes * cell) res
+
+val stateinit_ok : cell -> unit res
+
+type extmsg = { e_wc : n; e_addr : bits; e_init : cell option; e_body : cell }
+
+val parse_ext : (cell -> bytes res) -> cell -> extmsg res
+
+val split_signed : cell -> (bits * cell) res
+
+val verify_prim :
+  (bits -> bytes -> bits -> bool) -> bits -> bytes -> bits -> unit res
+
+val v5_split : cell -> (bits * cell) res
+
+val signed_hash : (cell -> bytes res) -> bool -> cell -> (bits * bytes) res
+
+val verify_layout : version -> bool option
+
+type decoded = { d_id : n; d_valid : n; d_seqno : n; d_extra : n;
+                 d_msgs : rawmsg list }
+
+val payload_dec : cell list -> bits -> rawmsg list res
+
+val decode_v3 : cell -> decoded res
+
+val decode_v4 : cell -> decoded res
+
+val actions_dec : cell -> rawmsg list res
+
+val first_ref : cell list -> cell res
+
+val decode_v5beta : cell -> decoded res
+
+val decode_v5r1 : cell -> decoded res
+
+val hl_values : (bits * cell0) list -> rawmsg list res
+
+val decode_hl : cell -> decoded res
+
+val decode_msg : (cell -> bytes res) -> version -> cell -> decoded res
+
+val xhash : cell -> bytes res
+
+val cell_of_sx0 : sx -> cell option
+
+val sx_of_cell : cell -> sx
+
+val ver_of_N : n -> version option
+
+val optZ : sx -> z option
+
+val optN : sx -> n option
+
+val opts_of_sx : sx -> options
+
+val msgs_of_sx : sx list -> rawmsg list option
+
+val sx_of_msgs : rawmsg list -> sx
+
+val out_res1 : ('a1 -> sx) -> 'a1 res -> sx
+
+val hash_sx : cell -> sx
+
+val run_send : sx -> sx
+
+val run_body : sx -> sx
+
+val table_verify : sx list -> bits -> bytes -> bits -> bool
+
+val verdict : sx list -> bits -> (bits * bytes) res -> sx
+
+val run_verify : sx -> sx
+
+val run_v5verify : sx -> sx
+
+val run_decode0 : sx -> sx
+
+val wallet_code_bocs : (n * n list) list
+
+val tree_at0 : nat -> node list -> nat -> cell option
+
+val boc_root : bytes -> cell option
+
+val ver_index : version -> n
+
+val code_table : (n * cell option) list
+
+val code_opt : version -> cell option
+
+val code_of : version -> cell
+
+val eTimeout : n
+
+val eChain : n
+
+val int32_of : z -> z
+
+val pk_bits : wallet -> bits
+
+val data_bits : wallet -> bits res
+
+val data_cell : wallet -> cell res
+
+val stateinit_bits : bits
+
+val state_init0 : (version -> cell) -> wallet -> cell res
+
+val address :
+  (version -> cell) -> (cell -> bytes res) -> wallet -> (z * bytes) res
+
+val api_new :
+  (version -> cell) -> (cell -> bytes res) -> bits -> version -> options ->
+  (z * bytes) res
+
+val api_generate_address :
+  (version -> cell) -> (cell -> bytes res) -> bits -> version -> z option ->
+  z -> n option -> (z * bytes) res
+
+val api_generate_state_init :
+  (version -> cell) -> bits -> version -> z option -> z -> n option -> cell
+  res
+
+type acct =
+| ANone1
+| AUninit
+| AFrozen
+| AActive of cell
+
+val hashmap_e_ok : nat -> nat -> bits -> cell list -> unit res
+
+val seqno_of_data : version -> cell -> n res
+
+val next_params : (version -> cell) -> wallet -> acct -> (n * cell option) res
+
+type poll = z * n option
+
+val confirm : z -> n -> poll list -> bool
+
+type sent = cell option * bytes res
+
+val raw_send_v2 :
+  (cell -> bytes res) -> ('a1 -> bytes -> bits) -> wallet -> 'a1 -> z -> bits
+  -> n -> z -> rawmsg list -> cell option -> n -> z -> bool -> poll list ->
+  sent
+
+val send_v2 :
+  (version -> cell) -> (cell -> bytes res) -> ('a1 -> bytes -> bits) ->
+  wallet -> 'a1 -> acct option -> rawmsg list -> z -> n -> z -> bool -> poll
+  list -> sent
+
+val addr_sx0 : (z * bytes) -> sx
+
+val run_addr0 : sx -> sx
+
+val acct_of_sx : sx -> acct option option
+
+val run_next : sx -> sx
+
+val hist_of_sx : z -> nat -> z -> sx list -> n option -> poll list
+
+val sent_sx : version -> cell -> sx
+
+val run_send15 : sx -> sx
 
 val run : string -> sx -> sx
